@@ -72,6 +72,65 @@ Proof.
     + repeat split; auto; intro; discriminate.
 Qed.
 
+(* ---- the filled bits (4: filled occlusion, 5: filled mismatch) recorded by an earlier step are never cleared *)
+Definition keeps48 (m r : Z) : Prop := Z.land (Z.land m 48) r = Z.land m 48.
+
+Lemma keeps48_of_ldiff : forall m r k, Z.ldiff r k = Z.ldiff m k -> Z.land k 48 = 0 -> keeps48 m r.
+Proof.
+  intros m r k H Hk. unfold keeps48. apply Z.bits_inj'. intros n Hn.
+  assert (A : Z.testbit (Z.ldiff r k) n = Z.testbit (Z.ldiff m k) n) by (rewrite H; reflexivity).
+  assert (B : Z.testbit (Z.land k 48) n = false) by (rewrite Hk; apply Z.bits_0).
+  rewrite !Z.ldiff_spec in A. rewrite Z.land_spec in B. rewrite !Z.land_spec.
+  destruct (Z.testbit m n), (Z.testbit r n), (Z.testbit k n), (Z.testbit 48 n); cbn in *; congruence.
+Qed.
+
+Lemma keeps48_trans : forall a b c, keeps48 a b -> keeps48 b c -> keeps48 a c.
+Proof.
+  unfold keeps48. intros a b c H1 H2. apply Z.bits_inj'. intros n Hn.
+  assert (A : Z.testbit (Z.land (Z.land a 48) b) n = Z.testbit (Z.land a 48) n) by (rewrite H1; reflexivity).
+  assert (B : Z.testbit (Z.land (Z.land b 48) c) n = Z.testbit (Z.land b 48) n) by (rewrite H2; reflexivity).
+  rewrite !Z.land_spec in *.
+  destruct (Z.testbit a n), (Z.testbit b n), (Z.testbit c n), (Z.testbit 48 n); cbn in *; congruence.
+Qed.
+
+Lemma keeps48_refl : forall m, keeps48 m m.
+Proof.
+  intro m. unfold keeps48. apply Z.bits_inj'. intros n Hn. rewrite !Z.land_spec.
+  destruct (Z.testbit m n), (Z.testbit 48 n); reflexivity.
+Qed.
+
+Lemma r_step_keeps_filled : forall idR idI cR cI ob s d m,
+  pinv_b cR cI m = true -> g_step idR idI cR cI s = true -> bI ob m -> keeps48 m (r_step ob s d m).
+Proof.
+  intros idR idI cR cI ob s d m Hp Hg Hb. destruct ob.
+  - assert (Hm : m = 1 \/ m = 2049) by (apply Hb; reflexivity).
+    unfold keeps48. destruct Hm as [-> | ->]; reflexivity.
+  - destruct (pinv_split _ _ _ Hp) as [Hi Hr].
+    destruct s as [mfi| |i|]; cbn [r_step g_step] in *.
+    + destruct mfi; [|apply keeps48_refl].
+      pose proof (implb_elim _ _ (F_mfi cR cI d m Hi) Hr) as H.
+      apply andb_true_iff in H as [_ H2]. apply Z.eqb_eq in H2.
+      apply (keeps48_of_ldiff _ _ 2048 H2). reflexivity.
+    + assert (Hx : rest_b cR cI m && (idR || cR) = true) by (rewrite Hr, Hg; reflexivity).
+      pose proof (implb_elim _ _ (F_ref idR cR cI d m Hi) Hx) as H.
+      apply andb_true_iff in H as [_ H3]. apply Z.eqb_eq in H3.
+      apply (keeps48_of_ldiff _ _ 8 H3). reflexivity.
+    + pose proof (implb_elim _ _ (F_xc cR cI d m Hi) Hr) as H.
+      apply andb_true_iff in H as [H H3]. apply andb_true_iff in H as [_ H2]. apply Z.eqb_eq in H3.
+      change (r_border false (r_xcheck d m)) with (r_xcheck d m).
+      destruct (pinv_split _ _ _ H2) as [Hi2 Hr2].
+      assert (K1 : keeps48 m (r_xcheck d m)) by (apply (keeps48_of_ldiff _ _ 768 H3); reflexivity).
+      destruct i.
+      * cbn [r_interp]. exact K1.
+      * assert (Hx : rest_b cR cI (r_xcheck d m) && (idI || cI) = true) by (rewrite Hr2, Hg; reflexivity).
+        pose proof (implb_elim _ _ (F_int_keeps IMcCnn idI cR cI d _ Hi2) Hx) as H'. apply Z.eqb_eq in H'.
+        exact (keeps48_trans _ _ _ K1 H').
+      * assert (Hx : rest_b cR cI (r_xcheck d m) && (idI || cI) = true) by (rewrite Hr2, Hg; reflexivity).
+        pose proof (implb_elim _ _ (F_int_keeps ISgm idI cR cI d _ Hi2) Hx) as H'. apply Z.eqb_eq in H'.
+        exact (keeps48_trans _ _ _ K1 H').
+    + apply keeps48_refl.
+Qed.
+
 Lemma inv_b_spec : forall m, inv_b m = true <->
   0 <= m < 4096 /\ Z.testbit m 10 = false /\ (Z.testbit m 8 && Z.testbit m 9) = false.
 Proof.
@@ -127,6 +186,37 @@ Section Pipe.
     - unfold idI. destruct s; auto.
     - exact H1.
     - rewrite E1. auto.
+  Qed.
+
+  (* ONE STEP never clears a filled bit recorded earlier *)
+  Lemma t_step_keeps_filled : forall cR cI offpos border s d m,
+    pinv_b cR cI m = true -> g_stepE cR cI s = true -> bI (offpos && border) m ->
+    keeps48 m (t_step E offpos border s d m).
+  Proof.
+    intros cR cI offpos border s d m Hp Hg Hb.
+    set (idI := match s with SVal i => interp_idem E i | _ => true end).
+    assert (Hg' : g_step (refine_idem E) idI cR cI s = true).
+    { unfold idI. destruct s as [mfi| |[]|]; exact Hg. }
+    destruct (r_step_facts (refine_idem E) idI cR cI (offpos && border) s d m Hp Hg' Hb) as (H1 & _).
+    destruct (norm_step E Hwf (refine_idem E) idI offpos border s d m) as [E1 _].
+    - auto.
+    - unfold idI. destruct s; auto.
+    - exact H1.
+    - rewrite E1. exact (r_step_keeps_filled (refine_idem E) idI cR cI (offpos && border) s d m Hp Hg' Hb).
+  Qed.
+
+  (* ... nor does any sequence of steps of a guarded pipeline *)
+  Lemma run_flags_keeps_filled : forall offpos border p cR cI m,
+    pinv_b cR cI m = true -> pipeline_guard E cR cI (map fst p) = true -> bI (offpos && border) m ->
+    keeps48 m (run_flags E offpos border p m).
+  Proof.
+    intros offpos border. induction p as [|[s d] p IH]; intros cR cI m Hp Hg Hb.
+    - cbn. apply keeps48_refl.
+    - cbn [map fst] in Hg. rewrite guard_cons in Hg. apply andb_true_iff in Hg as [Hg1 Hg2].
+      destruct (t_step_facts cR cI offpos border s d m Hp Hg1 Hb) as (_ & H2 & H3 & _).
+      cbn [run_flags]. eapply keeps48_trans.
+      + exact (t_step_keeps_filled cR cI offpos border s d m Hp Hg1 Hb).
+      + exact (IH _ _ _ H2 Hg2 H3).
   Qed.
 
   (* the disparity-map part of a pipeline *)
